@@ -110,10 +110,18 @@ func FxPair(c *lib.Chain, ctx sdk.Context) (common.Address, bool) {
 // does (localhost client, OPEN connection and channel, capability claimed by the transfer module), with a
 // fixed first send sequence.
 func Channel(c *lib.Chain, ctx sdk.Context, firstSeq uint64) (portID, channelID string) {
+	return ChannelTo(c, ctx, firstSeq, "")
+}
+
+// ChannelTo is Channel with the channel id of the remote end given (counterparty); "" = the same id as the local end.
+func ChannelTo(c *lib.Chain, ctx sdk.Context, firstSeq uint64, remoteChannelID string) (portID, channelID string) {
 	portID = "transfer"
 	app := c.App
 	channelSequence := app.IBCKeeper.ChannelKeeper.GetNextChannelSequence(ctx)
 	channelID = fmt.Sprintf("channel-%d", channelSequence)
+	if remoteChannelID == "" {
+		remoteChannelID = channelID
+	}
 	connectionID := connectiontypes.FormatConnectionIdentifier(channelSequence)
 	clientID := clienttypes.FormatClientIdentifier(exported.Localhost, channelSequence)
 
@@ -122,8 +130,14 @@ func Channel(c *lib.Chain, ctx sdk.Context, firstSeq uint64) (portID, channelID 
 	app.IBCKeeper.ClientKeeper.SetClientState(ctx, clientID, localHostClient)
 
 	params := app.IBCKeeper.ClientKeeper.GetParams(ctx)
-	params.AllowedClients = append(params.AllowedClients, localHostClient.ClientType())
-	app.IBCKeeper.ClientKeeper.SetParams(ctx, params)
+	allowed := false
+	for _, ct := range params.AllowedClients {
+		allowed = allowed || ct == localHostClient.ClientType()
+	}
+	if !allowed {
+		params.AllowedClients = append(params.AllowedClients, localHostClient.ClientType())
+		app.IBCKeeper.ClientKeeper.SetParams(ctx, params)
+	}
 
 	prevConsState := &ibctm.ConsensusState{Timestamp: ctx.BlockTime(), NextValidatorsHash: ctx.BlockHeader().NextValidatorsHash}
 	height := clienttypes.NewHeight(0, uint64(ctx.BlockHeight()))
@@ -138,7 +152,7 @@ func Channel(c *lib.Chain, ctx sdk.Context, firstSeq uint64) (portID, channelID 
 		connectiontypes.GetCompatibleVersions(), 500)
 	app.IBCKeeper.ConnectionKeeper.SetConnection(ctx, connectionID, connectionEnd)
 
-	channel := channeltypes.NewChannel(channeltypes.OPEN, channeltypes.UNORDERED, channeltypes.NewCounterparty(portID, channelID), []string{connectionID}, transfertypes.Version)
+	channel := channeltypes.NewChannel(channeltypes.OPEN, channeltypes.UNORDERED, channeltypes.NewCounterparty(portID, remoteChannelID), []string{connectionID}, transfertypes.Version)
 	app.IBCKeeper.ChannelKeeper.SetChannel(ctx, portID, channelID, channel)
 	app.IBCKeeper.ChannelKeeper.SetNextSequenceSend(ctx, portID, channelID, firstSeq)
 	app.IBCKeeper.ChannelKeeper.SetNextChannelSequence(ctx, channelSequence+1)
